@@ -1,0 +1,19 @@
+//go:build !verif
+// +build !verif
+
+package nutsdb
+
+// Verification hooks (see verif_on.go). With the `verif` build tag off they
+// are empty, inlinable stubs.
+
+func verifFS(op, path string, off int64, data []byte) (bool, int, error) { return false, 0, nil }
+
+func verifMapPath(m []byte, path string) {}
+
+func verifPathOf(m []byte) string { return "" }
+
+func verifLock(ev string, db *DB, writable bool) {}
+
+func verifGate(site string, db *DB) {}
+
+func verifAccess(obj string, write bool, db *DB) {}
